@@ -7,6 +7,7 @@ import vf
 GROUP = "Store"
 PKG = "internal/resources"
 THEOREMS = ["C30_refines_table", "C30_refines_table_state", "C30_old_refuted_badcol", "C30_old_refuted_nilfirst"]
+# (the extended operation set - SetPrimaryKey, Sort, ReadOne, UpdateOne, DeleteOne, reopen - is inside C30_refines_table)
 META = {
     "group": "Store",
     "technique": "Coq refinement proof (all histories) of an executable model of the resources handle - filter "
@@ -112,8 +113,18 @@ def gen_history(rng, bad):
         return {"op": "insert", "rec": rec}
     for _ in range(rng.randint(2, 5)):
         ops.append(ins())
-    for _ in range(rng.randint(3, 9)):
-        k = rng.choices(["insert", "read", "update", "delete", "create", "createif"], [3, 6, 3, 2, 0.3, 0.3])[0]
+    hk = 0 if ops and ops[0]["op"] in ("create", "createif") else None       # generator's idea of the flagged key column
+
+    def keyarg():
+        c = COLS[hk if hk is not None else 0]
+        rec = rng.choice(stored) if stored and rng.random() < 0.8 else gen_rec(rng)
+        v = tags_json(rec[c]) if c == "Tags" else rec[c]
+        kind = {"ID": rng.choice("us"), "Name": "s", "Age": "i", "Active": "b", "Tags": "s", "Raw": "s"}[c]
+        return {"kind": kind, "val": v}
+    for _ in range(rng.randint(3, 10)):
+        k = rng.choices(["insert", "read", "update", "delete", "create", "createif",
+                         "readone", "updateone", "deleteone", "sort", "setkey", "reopen"],
+                        [3, 6, 3, 2, 0.3, 0.3, 2.5, 1.5, 1, 1.5, 0.6, 0.6])[0]
         if k == "insert":
             ops.append(ins())
         elif k == "update":
@@ -122,7 +133,26 @@ def gen_history(rng, bad):
             stored.append(rec)
         elif k in ("read", "delete"):
             ops.append({"op": k, "filters": gen_filters(rng, bad, stored)})
+        elif k in ("readone", "deleteone"):
+            ops.append({"op": k, "key": keyarg()})
+        elif k == "updateone":
+            rec = dict(rng.choice(stored)) if stored and rng.random() < 0.7 else gen_rec(rng)
+            rec.update({"Age": rng.choice(AGES), "Active": rng.random() < 0.5})
+            ops.append({"op": k, "rec": rec})
+            stored.append(rec)
+        elif k == "sort":
+            ops.append({"op": k, "names": [spell(rng, c) for c in rng.sample(COLS, rng.choice([0, 1, 1, 2, 2, 3]))] +
+                        (["nope"] if bad and rng.random() < 0.3 else [])})
+        elif k == "setkey":
+            n = rng.choice(COLS + ["ID", "Name", "nope"])
+            hk = COLS.index(n) if n in COLS else None
+            ops.append({"op": k, "name": spell(rng, n)})
+        elif k == "reopen":
+            hk = None
+            ops.append({"op": k})
         else:
+            if k == "create" and hk is None:
+                hk = 0
             ops.append({"op": k})
     ops.append({"op": "read", "filters": []})
     return ops
@@ -163,6 +193,25 @@ def corpus():
         [{"op": "update", "rec": rec(4, "Nil", 1, True), "filters": [F("ID", "eq", "u", ZERO_UUID)]}, {"op": "read", "filters": []},
          {"op": "delete", "filters": [F("ID", "ne", "u", ZERO_UUID), F("Age", "gt", "i", 0)]}, {"op": "read", "filters": []},
          {"op": "delete", "filters": [F("ID", "eq", "u", ZERO_UUID)]}, {"op": "read", "filters": []}],
+        # Sort / ReadOne / UpdateOne / DeleteOne, and the handle of a reopened database: no key column is flagged
+        # until SetPrimaryKey or Create (seeded change C31-2 relied on exactly that)
+        base + [{"op": "insert", "rec": rec(2, "Ann", 63, False)}, {"op": "sort", "names": ["AGE", "name"]},
+                {"op": "read", "filters": [F("age", "gt", "i", 0)]}, {"op": "readone", "key": {"kind": "u", "val": UUIDS[1]}},
+                {"op": "updateone", "rec": rec(0, "Tommy", 1, True)}, {"op": "deleteone", "key": {"kind": "s", "val": UUIDS[1]}},
+                {"op": "deleteone", "key": {"kind": "u", "val": UUIDS[1]}}, {"op": "reopen"},
+                {"op": "readone", "key": {"kind": "u", "val": UUIDS[0]}}, {"op": "updateone", "rec": rec(0, "X", 2, True)},
+                {"op": "deleteone", "key": {"kind": "u", "val": UUIDS[0]}}, {"op": "createif"},
+                {"op": "readone", "key": {"kind": "u", "val": UUIDS[0]}}, {"op": "setkey", "name": "Name"},
+                {"op": "readone", "key": {"kind": "s", "val": "Tommy"}}, {"op": "updateone", "rec": rec(3, "Ann", 7, True)},
+                {"op": "sort", "names": []}, {"op": "read", "filters": []}, {"op": "create"},
+                {"op": "readone", "key": {"kind": "s", "val": "Ann"}}, {"op": "setkey", "name": "nope"},
+                {"op": "readone", "key": {"kind": "s", "val": "Ann"}}, {"op": "read", "filters": []}],
+        [{"op": "setkey", "name": "age"}, {"op": "create"}, {"op": "insert", "rec": rec(0, "Tom", 63, True)},
+         {"op": "insert", "rec": rec(1, "Mark", 63, False)}, {"op": "insert", "rec": rec(1, "Mark", 62, False)},
+         {"op": "readone", "key": {"kind": "i", "val": 62}}, {"op": "sort", "names": ["Name", "nope", "id"]},
+         {"op": "read", "filters": []}, {"op": "updateone", "rec": rec(2, "Zed", 62, True)}, {"op": "read", "filters": []},
+         {"op": "deleteone", "key": {"kind": "i", "val": 7}}, {"op": "deleteone", "key": {"kind": "i", "val": 62}},
+         {"op": "read", "filters": []}],
         [{"op": "insert", "rec": rec(0, "Tom", 63, True)}, {"op": "read", "filters": []}, {"op": "create"},
          {"op": "create"}, {"op": "createif"}, {"op": "delete", "filters": []}],
     ]
@@ -202,56 +251,139 @@ def matches(sfs, row):
     return all(holds(c, row[i], v) for i, c, v in sfs)
 
 
+def colidx(name):
+    if any(ord(ch) > 127 for ch in name):
+        return None
+    idx = [i for i, c in enumerate(COLS) if c.lower() == name.lower()]
+    return idx[0] if idx else None
+
+
+def keyval(k):
+    """value of a readone/deleteone key as it is stored (a uuid is stored as its text)"""
+    return k["val"]
+
+
+def sort_rows(rows, order):
+    return sorted(rows, key=lambda r: tuple(key(r[c]) for c in order)) if order else list(rows)
+
+
+def proj(row, order):
+    return tuple(key(row[c]) for c in order)
+
+
 def oracle(ops):
-    tbl = None
+    """a keyed in-memory table + the handle's key column flag and sort order.
+    answers: "ok" | "err" | ("count", n) | ("rows", rows in model order, order) | ("one", candidates in model order, order)"""
+    tbl, tkey, hkey, order = None, 0, None, []
     out = []
+
+    def unique(t):
+        ks = [key(x[tkey]) for x in t]
+        return len(set(ks)) == len(ks)
+
+    def create():
+        nonlocal tbl, tkey, hkey
+        hkey = 0 if hkey is None else hkey          # SetDefaultPrimaryKey: no "id"/"name" field name -> column 0
+        if tbl is None:
+            tbl, tkey = [], hkey
+            return "ok"
+        return "err"
     for o in ops:
         k = o["op"]
         if k == "create":
-            if tbl is None:
-                tbl = []
-                out.append("ok")
-            else:
-                out.append("err")
+            out.append(create())
         elif k == "createif":
-            if tbl is None:
-                tbl = []
+            out.append("ok" if tbl is not None else create())
+        elif k == "setkey":
+            hkey = colidx(o["name"])
             out.append("ok")
+        elif k == "sort":
+            order = [colidx(n) for n in o["names"] if colidx(n) is not None]
+            out.append("ok")
+        elif k == "reopen":
+            hkey, order = None, []
+            out.append("ok")
+        elif k in ("readone", "deleteone", "updateone") and hkey is None:
+            out.append("err")
         elif tbl is None:
             out.append("err")
         elif k == "insert":
             r = row_of(o["rec"])
-            if any(x[0] == r[0] for x in tbl):
+            if any(key(x[tkey]) == key(r[tkey]) for x in tbl):
                 out.append("err")
             else:
                 tbl.append(r)
                 out.append("ok")
+        elif k == "readone":
+            cands = sort_rows([x for x in tbl if key(x[hkey]) == key(keyval(o["key"]))], order)
+            out.append(("one", cands, list(order)) if cands else "err")
+        elif k == "deleteone":
+            n = sum(1 for x in tbl if key(x[hkey]) == key(keyval(o["key"])))
+            tbl = [x for x in tbl if key(x[hkey]) != key(keyval(o["key"]))]
+            out.append("ok" if n else "err")
+        elif k == "updateone":
+            nr = row_of(o["rec"])
+            t2 = [nr if key(x[hkey]) == key(nr[hkey]) else x for x in tbl]
+            if unique(t2):
+                tbl = t2
+                out.append("ok")
+            else:
+                out.append("err")
         else:
             sfs = resolve(o.get("filters"))
             if sfs is None:
                 out.append("err")
             elif k == "read":
-                out.append(("rows", sorted(x for x in tbl if matches(sfs, x))))
+                out.append(("rows", sort_rows([x for x in tbl if matches(sfs, x)], order), list(order)))
             elif k == "delete":
                 out.append(("count", sum(1 for x in tbl if matches(sfs, x))))
                 tbl = [x for x in tbl if not matches(sfs, x)]
             elif k == "update":
                 nr = row_of(o["rec"])
                 t2 = [nr if matches(sfs, x) else x for x in tbl]
-                if len({x[0] for x in t2}) != len(t2):
-                    out.append("err")
-                else:
+                if unique(t2):
                     tbl = t2
                     out.append("ok")
+                else:
+                    out.append("err")
     return out
 
 
 def real_res(o):
     if o["res"] == "rows":
-        return ("rows", sorted(row_of(r) for r in o["rows"]))
+        return ("rows", [row_of(r) for r in o["rows"]])       # in the order returned
     if o["res"] == "count":
         return ("count", o["count"])
     return o["res"]
+
+
+def agree(got, want):
+    """real answer vs table answer; row order matters only as far as ORDER BY determines it"""
+    if isinstance(want, str) or want[0] == "count":
+        return got == want
+    if not (isinstance(got, tuple) and got[0] == "rows"):
+        return False
+    rows, order = got[1], want[2]
+    if want[0] == "rows":
+        return sorted(rows) == sorted(want[1]) and [proj(r, order) for r in rows] == [proj(r, order) for r in want[1]]
+    return len(rows) == 1 and rows[0] in want[1] and proj(rows[0], order) == proj(want[1][0], order)
+
+
+def show(w):
+    if isinstance(w, tuple) and w[0] in ("rows", "one"):
+        return json.dumps([w[0], w[1][:6]] + ([{"order": w[2]}] if len(w) > 2 and w[2] else []))[:300]
+    return json.dumps(w)[:300]
+
+
+def coq_mode(got, want):
+    """0 = compare as multiset, 1 = exact order, 2 = the order / the row picked is not determined: skip"""
+    if isinstance(want, tuple) and want[0] == "rows" and want[2]:
+        ps = [proj(r, want[2]) for r in want[1]]
+        return 1 if len(set(ps)) == len(ps) else 0
+    if isinstance(want, tuple) and want[0] == "one":
+        first = proj(want[1][0], want[2])
+        return 1 if sum(1 for r in want[1] if proj(r, want[2]) == first) == 1 and (want[2] or len(want[1]) == 1) else 2
+    return 0
 
 
 # ----------------------------------------------------------------------------- Coq encodings
@@ -298,6 +430,18 @@ def cop(o):
         return "(ORead %s)" % fs
     if k == "update":
         return "(OUpdate %s %s)" % (crow(row_of(o["rec"])), fs)
+    if k == "setkey":
+        return "(OSetKey %s)" % cstr(o["name"])
+    if k == "sort":
+        return "(OSort [%s])" % ";".join(cstr(n) for n in o["names"])
+    if k == "readone":
+        return "(OReadOne %s)" % cval(o["key"]["val"])
+    if k == "deleteone":
+        return "(ODeleteOne %s)" % cval(o["key"]["val"])
+    if k == "updateone":
+        return "(OUpdateOne %s)" % crow(row_of(o["rec"]))
+    if k == "reopen":
+        return "OReopen"
     return "(ODelete %s)" % fs
 
 
@@ -329,28 +473,37 @@ def cstmt(s):
 PRELUDE = """From Store Require Import Model.
 From Common Require Import Base.
 Open Scope N_scope.
+Definition expect := (nat * res * list (str * option (list val)))%type.   (* compare mode, result, statements *)
 Definition stmt_ok (s : stmt) (e : str * option (list val)) : bool :=
   str_eqb (stmt_text demo_cols demo_tbl s) (fst e) &&
   match snd e with None => true | Some a => vals_eqb (stmt_args s) a end.
 Fixpoint stmts_ok (ss : list stmt) (es : list (str * option (list val))) : bool :=
   match ss, es with [], [] => true | s :: ss', e :: es' => stmt_ok s e && stmts_ok ss' es' | _, _ => false end.
-Fixpoint trace_ok (tr : list (res * list stmt)) (ex : list (res * list (str * option (list val)))) : bool :=
+Fixpoint rows_exact (a b : list row) : bool :=
+  match a, b with [], [] => true | x :: a', y :: b' => row_eqb x y && rows_exact a' b' | _, _ => false end.
+Definition res_cmp (mode : nat) (x y : res) : bool :=
+  match mode, x, y with
+  | 2%nat, RRows _, RRows _ => true
+  | 1%nat, RRows a, RRows b => rows_exact a b
+  | _, _, _ => res_eqb x y
+  end.
+Fixpoint trace_ok (tr : list (res * list stmt)) (ex : list expect) : bool :=
   match tr, ex with
   | [], [] => true
-  | (x, ss) :: tr', (y, es) :: ex' => res_eqb x y && stmts_ok ss es && trace_ok tr' ex'
+  | (x, ss) :: tr', (m, y, es) :: ex' => res_cmp m x y && stmts_ok ss es && trace_ok tr' ex'
   | _, _ => false
   end.
-Fixpoint res_ok (tr : list (res * list stmt)) (ex : list (res * list (str * option (list val)))) : bool :=
+Fixpoint res_ok (tr : list (res * list stmt)) (ex : list expect) : bool :=
   match tr, ex with
   | [], [] => true
-  | (x, _) :: tr', (y, _) :: ex' => res_eqb x y && res_ok tr' ex'
+  | (x, _) :: tr', (m, y, _) :: ex' => res_cmp m x y && res_ok tr' ex'
   | _, _ => false
   end.
-Definition case := (list op * list (res * list (str * option (list val))))%type.
+Definition case := (list op * list expect)%type.
 Fixpoint bad (f : case -> bool) (i : nat) (l : list case) : list nat :=
   match l with [] => [] | c :: r => (if f c then [] else [i]) ++ bad f (S i) r end.
-Definition full_ok (c : case) := trace_ok (trace_from wsem_ref demo_cols None (fst c)) (snd c).
-Definition results_ok (c : case) := res_ok (trace_from wsem_ref demo_cols None (fst c)) (snd c).
+Definition full_ok (c : case) := trace_ok (trace_from wsem_ref osem_ref demo_cols st0 (fst c)) (snd c).
+Definition results_ok (c : case) := res_ok (trace_from wsem_ref osem_ref demo_cols st0 (fst c)) (snd c).
 Definition wf_ok (c : case) := history_wf demo_cols (fst c).
 """
 
@@ -421,8 +574,9 @@ def run(ck):
     nontriv = set()
     nops = 0
     dist = {"histories": len(hs), "ops": 0, "zero_uuid_records": 0, "filters_on_zero_uuid": 0, "nil_filters": 0, "unknown_column_filters": 0, "nil_before_filter_ops": 0,
-            "key_collisions": 0, "reads_with_rows": 0, "errors": 0}
+            "key_collisions": 0, "reads_with_rows": 0, "errors": 0, "keyed_ops": 0, "ordered_reads": 0, "reopens": 0}
     oracle_bad = set()
+    wants = {}
     for i, h in enumerate(hs):
         want = oracle(h)
         got = [real_res(o) for o in outs[i]["out"]]
@@ -437,10 +591,15 @@ def run(ck):
                 dist["nil_before_filter_ops"] += 1
             if got[j] == "err":
                 dist["errors"] += 1
-                if o["op"] in ("insert", "update") and want[j] == "err" and resolve(o.get("filters")) is not None:
+                if o["op"] in ("insert", "update", "updateone") and want[j] == "err" and resolve(o.get("filters")) is not None:
                     dist["key_collisions"] += 1
             if isinstance(got[j], tuple) and got[j][0] == "rows" and got[j][1]:
                 dist["reads_with_rows"] += 1
+            dist["keyed_ops"] += o["op"] in ("readone", "updateone", "deleteone")
+            dist["ordered_reads"] += o["op"] in ("read", "readone") and isinstance(want[j], tuple) and bool(want[j][2])
+            dist["reopens"] += o["op"] == "reopen"
+            if o["op"] in ("readone", "updateone", "deleteone"):
+                nontriv.add((o["op"], got[j] if isinstance(got[j], str) else got[j][0]))
             if any(f is not None for f in fs):
                 pat = tuple("nil" if f is None else ("bad" if resolve([f]) is None else f["cmp"]) for f in fs)
                 cls = got[j] if isinstance(got[j], str) else (got[j][0], len(got[j][1]) if got[j][0] == "rows" else got[j][1])
@@ -448,12 +607,14 @@ def run(ck):
             if outs[i]["out"][j]["herr"]:
                 ck.violation("handle-error-state", "the shared handle's Err became set after op %d of history %d (the model "
                              "assumes value-receiver constructors never touch it)" % (j, i), replay={"histories": [h]})
-        if got != want:
-            j = next(k for k in range(len(h)) if got[k] != want[k])
+        wants[i] = want
+        if not all(agree(g, w) for g, w in zip(got, want)):
+            j = next(k for k in range(len(h)) if not agree(got[k], want[k]))
             oracle_bad.add(i)
             sig = classify(h, j)
             ck.violation(sig, "history %d op %d (%s %s): real store answered %s, a keyed in-memory table answers %s" % (
-                i, j, h[j]["op"], json.dumps(h[j].get("filters")), json.dumps(got[j])[:300], json.dumps(want[j])[:300]),
+                i, j, h[j]["op"], json.dumps(h[j].get("filters") or h[j].get("key") or h[j].get("name") or h[j].get("names")),
+                json.dumps(got[j])[:300], show(want[j])),
                 replay={"histories": [h[:j + 1]], "op_index": j,
                         "statements": outs[i]["out"][j]["stmts"]})
     dist["ops"] = nops
@@ -479,7 +640,8 @@ def run(ck):
         ex = []
         for j, o in enumerate(h):
             oo = outs[i]["out"][j]
-            ex.append("(%s, [%s])" % (cres(real_res(oo)), ";".join(cstmt(s) for s in oo["stmts"])))
+            g = real_res(oo)
+            ex.append("(%d%%nat, %s, [%s])" % (coq_mode(g, wants[i][j]), cres(g), ";".join(cstmt(s) for s in oo["stmts"])))
         cs.append("([%s],\n  [%s])" % (";".join(cop(o) for o in h), ";".join(ex)))
     lines = [PRELUDE] + ["Definition %s : str := %s." % (nm, vf.vstr(st)) for st, nm in STRTAB.items()]
     lines.append("Definition cases : list case := [")
